@@ -848,11 +848,10 @@ class VectorStarSet(object):
                                 Nvect = 0
                                 continue
                             # if we don't have the identify matrix, then we have to find the one vector that survives
-                            if abs(g00 - 1) < threshold:
-                                Nvect = 1
-                                continue
-                            if abs(g11 - 1) < threshold:
-                                v0 = v1
+                            # (alignment is tested on the off-diagonal element, which is linear in the misalignment
+                            # angle; 1-g00 is quadratic and would accept a vector that is off by sqrt(threshold))
+                            if abs(g01) < threshold:
+                                if g00 < 0: v0 = v1
                                 Nvect = 1
                                 continue
                             v0 = (g01 * v0 + (1 - g00) * v1) / np.sqrt(g01 * g10 + (1 - g00) ** 2)
